@@ -8,7 +8,7 @@ import re
 from ..astutil import kids, strip, walk, callee_ref, render, loc, int_value
 from ..frontend import AnalysisBroken
 from ..report import Report
-from ..vals import FuncCtx
+from ..vals import FuncCtx, is_assert_stmt
 from .. import inv
 from . import common
 
@@ -52,6 +52,206 @@ def inline_swaps(f):
             if bl == ta[1] and cl == br and cr == ta[0]:
                 found.append((blk, i, bl, br, (a, b, c)))
     return found
+
+
+def is_assert_stmt_anc(f, node):
+    """node lies inside an assertion statement of f"""
+    return any(is_assert_stmt(a) for a in inv.enclosing_chain(f, node))
+
+
+def _norm(t):
+    """drop unsigned suffixes, blanks and parentheses"""
+    return re.sub(r"[\s()]", "", re.sub(r"(?<=\d)[uU][lL]*\b", "", t))
+
+
+# ---------------------------------------------------------------------------------------------------------
+class _SiftEval:
+    """Evaluate one round of a sift-down body over an abstraction: positions R (root), L, T (left / right child),
+    which children exist, and the weak order of the three key values."""
+
+    class Stop(Exception):
+        pass
+
+    def __init__(self, f, key, n, root, left, right):
+        self.f, self.key, self.n = f, key, n
+        self.names = {root: "R", left: "L", right: "T"}
+        self.root, self.left, self.right = root, left, right
+
+    def run(self, body, where, rank):
+        self.where, self.rank = where, rank
+        self.exists = {k_: v_ == "in" for k_, v_ in where.items()}
+        self.env = {self.root: "R", self.left: "L", self.right: "T"}
+        self.swaps = []
+        self.stopped = False
+        self.new_root = None
+        self.recomputed = set()
+        self.oob = None
+        try:
+            self.stmt(body)
+        except _SiftEval.Stop:
+            self.stopped = True
+        return self
+
+    def pos(self, n):
+        n = strip(n, casts=True)
+        if n["kind"] == "DeclRefExpr" and n["ref"]["name"] in self.env:
+            return self.env[n["ref"]["name"]]
+        raise AnalysisBroken("sift evaluation: index expression %s not understood" % render(n))
+
+    def cond(self, n):
+        n = strip(n, casts=True)
+        k = n["kind"]
+        if k == "UnaryOperator" and n.get("opcode") == "!":
+            return not self.cond(kids(n)[0])
+        if k == "BinaryOperator":
+            op = n["opcode"]
+            if op == "&&":
+                return self.cond(kids(n)[0]) and self.cond(kids(n)[1])
+            if op == "||":
+                return self.cond(kids(n)[0]) or self.cond(kids(n)[1])
+            a, b = strip(kids(n)[0], casts=True), strip(kids(n)[1], casts=True)
+            if op in ("<", ">", "<=", ">=", "==", "!="):
+                if a["kind"] == "ArraySubscriptExpr" and b["kind"] == "ArraySubscriptExpr":
+                    if render(kids(a)[0]) != self.key or render(kids(b)[0]) != self.key:
+                        raise AnalysisBroken("sift evaluation: compares %s, not elements of the key array" % render(n))
+                    pa, pb = self.pos(kids(a)[1]), self.pos(kids(b)[1])
+                    for p_ in (pa, pb):
+                        if not self.exists[p_]:
+                            self.oob = "reads %s[%s] although that child lies beyond the heap" % (self.key, p_)
+                    ra, rb = self.rank[pa], self.rank[pb]
+                    return {"<": ra < rb, ">": ra > rb, "<=": ra <= rb, ">=": ra >= rb, "==": ra == rb, "!=": ra != rb}[op]
+                # index comparisons
+                if a["kind"] == "DeclRefExpr" and a["ref"]["name"] == self.n:
+                    a, b, op = b, a, {"<": ">", ">": "<", "<=": ">=", ">=": "<="}.get(op, op)
+                if b["kind"] == "DeclRefExpr" and b["ref"]["name"] == self.n and op in ("<", "<=", ">", ">="):
+                    st_ = self.where[self.pos(a)]        # 'in' (< n), 'edge' (== n), 'out' (> n)
+                    return {"<": st_ == "in", "<=": st_ in ("in", "edge"), ">": st_ == "out", ">=": st_ in ("edge", "out")}[op]
+                if op in ("==", "!="):
+                    pa, pb = self.pos(a), self.pos(b)
+                    return (pa == pb) if op == "==" else (pa != pb)
+        raise AnalysisBroken("sift evaluation: condition %s not understood" % render(n))
+
+    def stmt(self, n):
+        k = n["kind"]
+        if k == "CompoundStmt":
+            for c in kids(n):
+                self.stmt(c)
+        elif k == "DeclStmt":
+            for d in kids(n):
+                if d["kind"] == "VarDecl" and kids(d):
+                    self.env[d["name"]] = self.pos(kids(d)[0])
+        elif k == "IfStmt":
+            ch = kids(n)
+            if self.cond(ch[0]):
+                self.stmt(ch[1])
+            elif len(ch) > 2:
+                self.stmt(ch[2])
+        elif k == "BreakStmt":
+            raise _SiftEval.Stop()
+        elif k == "BinaryOperator" and n.get("opcode") == "=":
+            l = strip(kids(n)[0])
+            if l["kind"] != "DeclRefExpr":
+                raise AnalysisBroken("sift evaluation: store to %s" % render(l))
+            nm = l["ref"]["name"]
+            r_ = strip(kids(n)[1], casts=True)
+            if nm == self.root:
+                self.new_root = self.pos(r_)
+            elif nm in (self.left, self.right):
+                txt = _norm(render(r_))
+                want = "2*%s+%d" % (self.root, 1 if nm == self.left else 2)
+                if txt == want and self.new_root is not None:
+                    self.recomputed.add(nm)
+                else:
+                    self.recomputed.add(nm + ":wrong:" + txt)
+            else:
+                self.env[nm] = self.pos(r_)
+        elif k == "CallExpr" and callee_ref(n) == "cmi_dataset_swap":
+            a = [strip(z, casts=True) for z in kids(n)[1:]]
+            ps = []
+            arr = None
+            for z in a:
+                if z["kind"] == "UnaryOperator" and z.get("opcode") == "&":
+                    e = strip(kids(z)[0], casts=True)
+                    if e["kind"] == "ArraySubscriptExpr":
+                        arr = render(kids(e)[0])
+                        ps.append(self.pos(kids(e)[1]))
+            self.swaps.append((arr, tuple(ps)))
+        elif is_assert_stmt(n) or k in ("NullStmt",):
+            return
+        else:
+            raise AnalysisBroken("sift evaluation: unsupported statement %s at line %s" % (k, n.get("line")))
+
+
+def check_sift(rep, rule, m, f):
+    """Exhaustive check of one sift-down round: over which children exist and all weak orders of (root, left, right)."""
+    import itertools
+    names = [p_["name"] for p_ in f.params]
+    n, key, root = names[0], names[1], names[-1]
+    loops = [x for x in kids(f.body) if x["kind"] in ("ForStmt", "WhileStmt")]
+    if len(loops) != 1:
+        raise AnalysisBroken("%s: expected one sift loop" % f.name)
+    body = kids(loops[0])[-1]
+    # children indices before the loop
+    child = {}
+    for x in kids(f.body):
+        if x["kind"] == "DeclStmt":
+            for d in kids(x):
+                if d["kind"] == "VarDecl" and kids(d):
+                    txt = _norm(render(kids(d)[0]))
+                    if txt == "2*%s+1" % root:
+                        child["L"] = d["name"]
+                    if txt == "2*%s+2" % root:
+                        child["T"] = d["name"]
+    if set(child) != {"L", "T"}:
+        rep.finding(rule, f.name, "sift:children", "%s does not start from the children 2*root+1 and 2*root+2" % f.name, where=m.rel(f.where))
+        rule.fail()
+        return
+    ev = _SiftEval(f, key, n, root, child["L"], child["T"])
+    cases = 0
+    bad = {}
+    for ex_ in (("out", "out"), ("edge", "out"), ("in", "edge"), ("in", "in")):
+        where = {"R": "in", "L": ex_[0], "T": ex_[1]}
+        exists = {k_: v_ == "in" for k_, v_ in where.items()}
+        for ranks in itertools.product(range(3), repeat=3):
+            rank = dict(zip("RLT", ranks))
+            cases += 1
+            r_ = ev.run(body, where, rank)
+            live = [p_ for p_ in "RLT" if exists[p_]]
+            top = max(rank[p_] for p_ in live)
+            desc = "children %s, keys %s" % ("+".join(p_ for p_ in "LT" if exists[p_]) or "none",
+                                            " ".join("%s=%d" % (p_, rank[p_]) for p_ in live))
+            if r_.oob:
+                bad.setdefault("sift:out-of-range", (r_.oob, desc))
+                continue
+            if r_.stopped and not r_.swaps:
+                if rank["R"] != top:
+                    bad.setdefault("sift:stops-early", ("stops although a child is larger than the root", desc))
+                continue
+            keysw = [sw for sw in r_.swaps if sw[0] == key]
+            if len(keysw) != 1 or set(keysw[0][1]) != {"R", r_.new_root} or r_.new_root not in live or r_.new_root == "R":
+                bad.setdefault("sift:exchange", ("does not exchange the root with one existing child and continue there "
+                                                 "(exchanges %s, continues at %s)" % (r_.swaps, r_.new_root), desc))
+                continue
+            if rank[r_.new_root] != top:
+                bad.setdefault("sift:not-largest", ("moves the root down to a child that is not the largest of root and children: "
+                                                    "the max-heap condition (hence ascending order) is lost", desc))
+                continue
+            if any(sw[1] != keysw[0][1] and set(sw[1]) != set(keysw[0][1]) for sw in r_.swaps):
+                bad.setdefault("sift:companions", ("companion arrays are exchanged at other positions than the key", desc))
+                continue
+            if r_.stopped:
+                bad.setdefault("sift:no-continue", ("exchanges but does not continue below", desc))
+                continue
+            if r_.recomputed != {child["L"], child["T"]}:
+                bad.setdefault("sift:children-stale", ("after moving down the children indices are not recomputed as 2*root+1 / "
+                                                       "2*root+2 (%s)" % sorted(r_.recomputed), desc))
+    rule.instance("%s: %d abstract cases (children present x weak orders of root/left/right)" % (f.name, cases))
+    rep.sample({"rule": rule.id if hasattr(rule, "id") else "R-C18-5", "function": f.name, "cases": cases, "failures": len(bad)})
+    for kind, (why, desc) in bad.items():
+        rep.finding(rule, f.name, kind, "%s: %s (case: %s)" % (f.name, why, desc), where=m.rel(f.where))
+        rule.fail()
+    for _ in range(cases - len(bad)):
+        rule.ok()
 
 
 def rules(rep, m):
@@ -271,12 +471,222 @@ def rules(rep, m):
             r4.ok()
 
 
+    # R-C18-5 ------------------------------------------------------------
+    r5 = rep.rule("R-C18-5", "one round of sift-down moves the root to the largest of (root, existing children) or stops when "
+                  "the root is a largest one, never reads a child beyond the heap, and recomputes the children: decided "
+                  "exhaustively over which children exist and all orderings of the three keys (max-heap, hence ascending "
+                  "order after extraction)", floor=2)
+    for n in ("dataset_heapify", "timeseries_heapify"):
+        check_sift(rep, r5, m, funcs[n])
+
+    # R-C18-6 ------------------------------------------------------------
+    r6 = rep.rule("R-C18-6", "heapsort skeleton of the three sort routines: the heap is built by sifting every internal node "
+                  "from n/2 - 1 down to 0 over the whole array, then for end = n-1 down to 1 the maximum is exchanged to "
+                  "'end' and the root is sifted within the first 'end' elements; the only way past the two loops is the "
+                  "no-data test", floor=6)
+    for n, hp in (("cmb_dataset_sort", "dataset_heapify"), ("cmb_timeseries_sort_x", "timeseries_heapify"),
+                  ("cmb_timeseries_sort_t", "timeseries_heapify")):
+        f = funcs[n]
+        cx = FuncCtx(m, f)
+        loops = [x for x in walk(f.body) if x["kind"] == "ForStmt"]
+        hcalls = [c for c in walk(f.body) if c["kind"] == "CallExpr" and callee_ref(c) == hp]
+        if len(loops) != 2 or len(hcalls) != 2:
+            raise AnalysisBroken("%s: expected a build loop and an extraction loop with one sift call each" % n)
+        build, extract = loops
+        cnt = None
+        # element count: the variable/expr passed as heap size in the build loop
+        bc = [c for c in hcalls if any(y is c for y in walk(build))]
+        ec = [c for c in hcalls if any(y is c for y in walk(extract))]
+        if len(bc) != 1 or len(ec) != 1:
+            raise AnalysisBroken("%s: sift calls are not one per loop" % n)
+        bc, ec = bc[0], ec[0]
+        size_b = cx.canon(kids(bc)[1])
+        r6.instance("%s: build sifts within %s, extraction within %s" % (n, size_b, cx.canon(kids(ec)[1])))
+        if not size_b.endswith("->count"):
+            rep.finding(r6, n, "build:size", "%s builds the heap over %s elements, not the sample count" % (n, size_b), where=m.rel(loc(bc)))
+            r6.fail()
+        else:
+            r6.ok()
+        # build loop: var from n/2 - 1 (or higher) while >= 0, decreasing; sift(root = var)
+        bk = kids(build)
+        bv = [x for x in walk(bk[0]) if x["kind"] == "VarDecl"]
+        binit = _norm(re.sub(r"\(int64_t\)|\(long\)", "", cx.canon(kids(bv[0])[0]))) if bv and kids(bv[0]) else None
+        sz = re.sub(r"[\s()]", "", size_b)
+        bcond = _norm(render(bk[2]))
+        binc = re.sub(r"[\s()]", "", render(bk[3]))
+        vname = bv[0]["name"] if bv else "?"
+        signed = bv and "int64_t" in (bv[0].get("type") or "") and "uint" not in (bv[0].get("type") or "")
+        start_ok = binit in ("%s/2-1" % sz, "%s/2" % sz, "%s-1" % sz)
+        cond_ok = bcond == "%s>=0" % vname and signed
+        inc_ok = binc in (vname + "--", "--" + vname)
+        root_ok = cx.canon(kids(bc)[-1]) in (vname, "(uint64_t)%s" % vname) or render(strip(kids(bc)[-1], casts=True)) == vname
+        rep.sample({"rule": "R-C18-6", "function": n, "build": [binit, bcond, binc], "size": size_b})
+        if not (start_ok and cond_ok and inc_ok and root_ok):
+            known_bad = (binit is not None and re.fullmatch(r"%s/\d+-\d+|%s/\d+" % (re.escape(sz), re.escape(sz)), binit) is not None and not start_ok) \
+                or bcond in ("%s>0" % vname, "%s>=1" % vname) or not root_ok
+            if not known_bad and not (start_ok and inc_ok):
+                raise AnalysisBroken("%s: build loop '%s; %s; %s' not understood" % (n, binit, bcond, binc))
+            rep.finding(r6, n, "build:range", "%s builds the heap with '%s = %s; %s; %s' sifting at '%s': every internal node "
+                        "from n/2 - 1 down to and including 0 has to be sifted" % (n, vname, binit, bcond, binc, render(kids(bc)[-1])),
+                        where=m.rel(loc(build)))
+            r6.fail()
+        else:
+            r6.ok()
+        # extraction loop: end from n-1 while > 0 decreasing; exchange [0] <-> [end] first, then sift(end, ..., 0)
+        ek = kids(extract)
+        evs = [x for x in walk(ek[0]) if x["kind"] == "VarDecl"]
+        ename = evs[0]["name"] if evs else "?"
+        einit = _norm(cx.canon(kids(evs[0])[0])) if evs and kids(evs[0]) else None
+        econd = _norm(render(ek[2]))
+        einc = re.sub(r"[\s()]", "", render(ek[3]))
+        ok_range = einit == "%s-1" % sz and econd in ("%s>0" % ename, "%s>=1" % ename, "%s!=0" % ename) and einc in (ename + "--", "--" + ename)
+        if not ok_range:
+            rep.finding(r6, n, "extract:range", "%s extracts with '%s = %s; %s; %s': the maximum has to be moved to every position "
+                        "from n - 1 down to 1" % (n, ename, einit, econd, einc), where=m.rel(loc(extract)))
+            r6.fail()
+        else:
+            r6.ok()
+        body = kids(ek[4]) if ek[4]["kind"] == "CompoundStmt" else [ek[4]]
+        order = []
+        for st_ in body:
+            c = strip(st_, casts=True)
+            if c["kind"] == "CallExpr" and callee_ref(c) == "cmi_dataset_swap":
+                a_ = [_norm(render(z)) for z in kids(c)[1:]]
+                idx = sorted(re.sub(r"^.*\[(.*)\]$", r"\1", x) for x in a_)
+                order.append(("swap", tuple(idx)))
+            elif c["kind"] == "CallExpr" and callee_ref(c) == hp:
+                order.append(("sift", (_norm(render(kids(c)[1])), _norm(render(kids(c)[-1])))))
+        swaps_first = [o for o in order if o[0] == "swap"]
+        good = bool(swaps_first) and all(o[1] == tuple(sorted(("0", ename))) for o in swaps_first) and \
+            order and order[-1] == ("sift", (ename, "0")) and all(o[0] == "swap" for o in order[:-1])
+        r6.instance("%s: extraction step %s" % (n, order))
+        if not good:
+            rep.finding(r6, n, "extract:step", "%s: extraction step is %s; expected exchange of [0] and [%s] followed by sifting the "
+                        "root within the first %s elements" % (n, order, ename, ename), where=m.rel(loc(extract)))
+            r6.fail()
+        else:
+            r6.ok()
+        # every way out of the function that skips the loops is guarded by 'no data'
+        for x in walk(f.body):
+            if x["kind"] in ("ReturnStmt", "GotoStmt", "BreakStmt", "ContinueStmt"):
+                chain = [a_ for a_ in inv.enclosing_chain(f, x) if a_["kind"] == "IfStmt"]
+                conds = [cx.canon(kids(a_)[0]) for a_ in chain]
+                trivial = any(re.fullmatch(r"\(\S+->(xa|ta) == NULL\)|\(\S+->count (<|<=|==) [012]\)", c_) and
+                              not re.search(r"count < [3-9]|count <= [2-9]|count == [12]", c_) for c_ in conds)
+                if x["kind"] == "ReturnStmt" and x is kids(f.body)[-1]:
+                    continue
+                keyarr = cx.canon(kids(bc)[2])
+                if not trivial and "cmi_dataset_is_sorted(%s, %s)" % (size_b, keyarr) in conds:
+                    # shortcut on data that are already in order: relies on the whole-array test
+                    isf = m.need("cmi_dataset_is_sorted")
+                    nn, aa = isf.params[0]["name"], isf.params[1]["name"]
+                    fl = [y for y in walk(isf.body) if y["kind"] == "ForStmt"]
+                    okis = False
+                    if len(fl) == 1:
+                        fk = kids(fl[0])
+                        v_ = [y for y in walk(fk[0]) if y["kind"] == "VarDecl"]
+                        if v_ and kids(v_[0]):
+                            vn = v_[0]["name"]
+                            tests = [_norm(render(kids(y)[0])) for y in walk(fk[4]) if y["kind"] == "IfStmt" and
+                                     any(z["kind"] == "ReturnStmt" and _norm(render(kids(z)[0])) in ("false", "0") for z in walk(kids(y)[1]))]
+                            okis = _norm(render(kids(v_[0])[0])) == "0" and _norm(render(fk[2])) == "%s<%s-1" % (vn, nn) and \
+                                tests in (["%s[%s]>%s[%s+1]" % (aa, vn, aa, vn)], ["%s[%s+1]<%s[%s]" % (aa, vn, aa, vn)])
+                    if not okis:
+                        raise AnalysisBroken("%s takes a shortcut through cmi_dataset_is_sorted, whose loop is not understood" % n)
+                    trivial = True
+                if not trivial:
+                    rep.finding(r6, n, "early-exit", "%s leaves at line %s under %s without running the heapsort: only the "
+                                "no-data test may skip it (a shortcut has to establish that the whole array is in order)"
+                                % (n, x.get("line"), conds or "no condition"), where=m.rel(loc(x)))
+                    r6.fail()
+                else:
+                    r6.ok()
+        # the two loops are only guarded by the no-data test
+        for lp_ in (build, extract):
+            chain = [a_ for a_ in inv.enclosing_chain(f, lp_) if a_["kind"] in ("IfStmt", "ForStmt", "WhileStmt")]
+            conds = [cx.canon(kids(a_)[0]) if a_["kind"] == "IfStmt" else "loop" for a_ in chain]
+            okg = all(re.fullmatch(r"\(\S+->(xa|ta) != NULL\)|\(\S+->count (>|>=) [012]\)", c_) for c_ in conds)
+            if not okg:
+                rep.finding(r6, n, "guarded-phase", "%s runs a heapsort phase only under %s" % (n, conds), where=m.rel(loc(lp_)))
+                r6.fail()
+            else:
+                r6.ok()
+
+
+    # R-C18-7 ------------------------------------------------------------
+    r7 = rep.rule("R-C18-7", "autocorrelation: every coefficient stored is invariant under a shift of the data (translation "
+                  "typing: built from differences of samples and their running mean only) and has degree 0 under scaling "
+                  "(homogeneity typing), lag zero is the literal one, no test compares a data-dependent quantity with a "
+                  "constant of another shift class or degree, and the partial autocorrelation touches the data only "
+                  "through the autocorrelation", floor=3)
+    from fractions import Fraction
+    from ..engines.shift import ShiftEval, I as SH_I, E as SH_E, Z as SH_Z
+    from ..engines.deg import DegEval, ANY
+    acf = m.need("cmb_dataset_ACF")
+    arr = acf.params[2]["name"]
+    se = ShiftEval(m, acf, {"xa": SH_E, "count": SH_I, "min": SH_E, "max": SH_E, "cursize": SH_I}, {acf.params[1]["name"]: SH_I}).run()
+    de = DegEval(m, acf, {"xa": Fraction(1), "count": Fraction(0), "min": Fraction(1), "max": Fraction(1)},
+                 {acf.params[1]["name"]: Fraction(0)}).run()
+    sst = [(t, c, n_) for t, b, c, n_ in se.stores if b == arr + "[]"]
+    dst = [(t, d, n_) for t, b, d, n_ in de.stores if b == arr + "[]"]
+    r7.instance("ACF: %d stores typed for shift %s" % (len(sst), [(t, str(c)) for t, c, n_ in sst]))
+    r7.instance("ACF: %d stores typed for scale %s" % (len(dst), [(t, str(d)) for t, d, n_ in dst]))
+    rep.sample({"rule": "R-C18-7", "shift_classes": [(t, str(c)) for t, c, n_ in sst], "scale_degrees": [(t, str(d)) for t, d, n_ in dst],
+                "comparisons_typed": se.checked + de.checked})
+    if not sst or not dst:
+        raise AnalysisBroken("cmb_dataset_ACF stores no coefficients")
+    for t, c, n_ in sst:
+        if c not in (SH_I, SH_Z):
+            rep.finding(r7, acf.name, "acf:shift", "%s is of shift class %s: it is not built from differences of samples and "
+                        "their mean alone (e.g. sums of raw squares), so it changes - through cancellation - when a constant "
+                        "that is large compared with the spread is added to the data%s"
+                        % (t, c, ("; " + "; ".join(se.notes)) if se.notes else ""), where=m.rel(loc(n_)))
+            r7.fail()
+        else:
+            r7.ok()
+    for t, d, n_ in dst:
+        if d not in (ANY, Fraction(0)):
+            rep.finding(r7, acf.name, "acf:scale", "%s has degree %s in the data: it changes when the data are multiplied by a "
+                        "positive factor" % (t, d), where=m.rel(loc(n_)))
+            r7.fail()
+        else:
+            r7.ok()
+    for node, msg in se.problems:
+        rep.finding(r7, acf.name, "acf:shift-test", msg, where=m.rel(loc(node)))
+        r7.fail()
+    for node, msg in de.problems:
+        rep.finding(r7, acf.name, "acf:scale-test", "%s: the outcome changes when the data are multiplied by a positive factor "
+                    "(an absolute threshold on a quantity that scales with the data)" % msg, where=m.rel(loc(node)))
+        r7.fail()
+    for _ in range(se.checked + de.checked - len(se.problems) - len(de.problems)):
+        r7.ok()
+    zero = [(t, n_) for t, b, c, n_ in se.stores if b == arr + "[]" and re.fullmatch(r"%s\[0u?\]" % arr, t)]
+    lag0 = [strip(kids(n_)[1], casts=True) for t, n_ in zero]
+    from ..astutil import float_value
+    if len(lag0) != 1 or float_value(lag0[0]) != 1.0:
+        rep.finding(r7, acf.name, "acf:lag0", "the coefficient at lag zero is not the literal 1", where=m.rel(acf.where))
+        r7.fail()
+    else:
+        r7.ok()
+    pacf = m.need("cmb_dataset_PACF")
+    raw = [x for x in walk(pacf.body) if x["kind"] == "MemberExpr" and x.get("name") in ("xa", "min", "max")
+           and not is_assert_stmt_anc(pacf, x)]
+    viaacf = [c for c in walk(pacf.body) if c["kind"] == "CallExpr" and callee_ref(c) == "cmb_dataset_ACF"]
+    r7.instance("PACF: %d direct uses of the samples, %d call(s) of the ACF" % (len(raw), len(viaacf)))
+    if raw or not viaacf:
+        rep.finding(r7, pacf.name, "pacf:raw-data", "the partial autocorrelation reads the samples directly (%s)" %
+                    [render(x) for x in raw][:3], where=m.rel(pacf.where))
+        r7.fail()
+    else:
+        r7.ok()
+
+
 def run(tier="quick"):
     models = common.load_models(tier)
     rep = Report(PID, tier, models[0])
     rep.assumptions = ["only the structural clauses are decided (see level note)"]
-    rep.not_decided = ["ascending order of the result, the median / quartile properties, five-number ordering, autocorrelation "
-                       "invariances (all value-level)"]
+    rep.not_decided = ["the median / quartile properties and five-number ordering (value-level)",
+                       "termination and index arithmetic of the sift loops beyond one round"]
     for m in models[:1]:
         rep.configs.append(m.config)
         rules(rep, m)
